@@ -267,7 +267,8 @@ for tree in ("deep", "nestedprefix", "deeper"):
             if "." in p and c.startswith(p + "."):
                 for s in mods:
                     if "." in s and not s.startswith(p + ".") and s != p and not p.startswith(s + "."):
-                        arch = build_arch(mods, [(s, c)])
+                      for listed in ([(s, c)], [(c, s)], [(c, s), (p, s)]):      # the subject imports the inner package / is imported by it (and by the outer one)
+                        arch = build_arch(mods, listed)
                         for kinds in (("sub", "sub"), ("name", "name")):
                             for O in ([(kinds[0], p), (kinds[1], c)], [(kinds[1], c), (kinds[0], p)]):
                                 for verb, imp, exc in SHAPES:
